@@ -489,6 +489,17 @@ func oC15(ix *Index) []Violation {
 			}
 		}
 	}
+	// "no queue with pending jobs is starved": at rest, with the worker Running, every accepted job
+	// that was not cancelled has been dispatched
+	if ix.finalRunning() && !ix.R.Rep.Deadlock {
+		for _, n := range ix.JobNums {
+			j := ix.Jobs[n]
+			if j.Accepted == 1 && len(j.Enters) == 0 && !ix.optional(j, ix.N) {
+				out = append(out, v("C15", "starved", "job %d of queue %d (%s) was never dispatched although the worker is Running and at rest (strategy %s, final %+v)", n, j.Q, ix.QKinds[j.Q], names[strat], *ix.Final))
+				break
+			}
+		}
+	}
 	return out
 }
 
